@@ -1,4 +1,5 @@
 import GlyModel.Generated.Tables
+import GlyProofs.Mono.ReactLemmas
 /-
   C04 — A modification adds its named group at its named carbon, and only that. (Property theorems only.)
 -/
@@ -32,4 +33,55 @@ theorem C04_fragments_with_other_labels :
     (functionalGroups.filter (fun (_, v) => (ringDigits v).any (· != '2'))).map (·.1) = ["Fmoc".toList, "NAP".toList] := by
   decide +kernel
 
+open Gly.React in
+/-- **A single positional modification**: for every residue view (any sugar, any number of carbons), every position `p`
+    within the residue whose `find_oxygen` atom is `e`, and every group name that takes the plain branch (`plainSide`,
+    decided on the token text), the first round of `react` on `<p><name>` writes exactly one cell: position `p`, the O-slot
+    (the C-slot if `e` is a carbon), containing the position's own element iff the name is in `preserve_elem`, followed by the
+    table's fragment – every other cell stays empty, and the residue stays `full`. -/
+theorem C04_single_mod (v : View) (c0 : Char) (rest val : List Char) (e : Char)
+    (hside : plainSide c0 rest = true)
+    (hp : c0.toNat - '0'.toNat ≤ v.ncarbon)
+    (he : v.elemAt.getD (c0.toNat - '0'.toNat) none = some e)
+    (hv : fgLookup rest = some val) :
+    reactRound v [c0 :: rest] =
+      .ok ⟨setCell (initChains v) (c0.toNat - '0'.toNat) (if e == 'C' then 1 else 0)
+             (· ++ (let elem : List Char := if Gen.preserveElem.contains rest then [e] else []
+                    let be := if elem == ['C'] then [] else elem
+                    if be == ['P'] then "OP(=O)(O)".toList else be) ++ val),
+           [], true⟩ := by
+  have hlen : (initChains v).length = 1 + v.ncarbon := by simp [initChains]
+  have hp' : c0.toNat - '0'.toNat ≤ (initChains v).length - 1 := by rw [hlen]; omega
+  have hpos : c0.toNat - '0'.toNat < (initChains v).length := by rw [hlen]; omega
+  have h1 := reactToken_plain v ⟨initChains v, [], true⟩ c0 rest val e hside hp' he
+  have h2 := setFg_empty (initChains v) (if e == 'C' then 1 else 0) (c0.toNat - '0'.toNat)
+    (if (if Gen.preserveElem.contains rest then [e] else []) == ['C'] then [] else (if Gen.preserveElem.contains rest then [e] else []))
+    rest val hpos (by simp [initChains, getCell_replicate]) hv
+  show bindO (.ok ⟨initChains v, [], true⟩) (fun st => reactToken v st (c0 :: rest)) = _
+  simp only [bindO]
+  rw [h1]
+  simp only
+  rw [h2]
+  simp only [bindO, Bool.and_true, Bool.true_and]
+
+open Gly.React in
+/-- The side conditions hold – by kernel evaluation over the complete regenerated table and all nine digits – for these
+    group names (in particular S, P, Ac, Me, Bz, Bn, the halides, azide, the fatty acyl names …): the theorem above applies
+    to every one of them on every sugar. -/
+def plainKeys : List (List Char) :=
+  (Gen.functionalGroups.map (·.1)).filter (fun k => !k.isEmpty && ['1', '2', '3', '4', '5', '6', '7', '8', '9'].all (fun c => plainSide c k))
+
+theorem C04_plain_keys_many : Nat.ble 120 plainKeys.length = true := by decide +kernel
+
+theorem C04_plain_keys_core :
+    [['S'], ['A', 'c'], ['M', 'e'], ['B', 'z'], ['B', 'n'], ['F'], ['C', 'l'], ['B', 'r'], ['I'], ['N', '3'], ['G', 'c'],
+     ['L', 'a', 'u'], ['M', 'y', 'r'], ['P', 'a', 'm'], ['S', 't', 'e'], ['O', 'l', 'e'], ['T', 's'], ['T', 'B', 'S'], ['B', 'o', 'c']].all
+      (fun k => plainKeys.contains k) = true := by
+  decide +kernel
+
+/-- the keys of the table that take another branch (bridge letters `N`/`P`/`O`/`C` not covered by the conflict lists) -/
+theorem C04_non_plain_keys :
+    ((Gen.functionalGroups.map (·.1)).filter (fun k => !plainKeys.contains k)).all (fun k =>
+      ["", "N", "NFo", "P", "PhNO2", "Phyt", "Piv", "Poc", "Pen", "Oct", "Ccr", "Phthi"].contains (String.ofList k)) = true := by
+  decide +kernel
 end Gly.Props.C04
